@@ -91,15 +91,15 @@ var nolog = slog.New(slog.NewTextHandler(io.Discard, nil))
 
 // session drives one real Pll
 type session struct {
-	clk      *fakeClock
-	pll      *adjustments.Pll
-	prev     time.Time // reading of the last Do that returned normally
-	havePrev bool
-	args     []string
-	outs     []string
-	tags     map[string]bool
-	nEv      int
-	lastStep bool // the last Do called Step
+	clk       *fakeClock
+	pll       *adjustments.Pll
+	prev      time.Time // reading of the last Do that returned normally
+	havePrev  bool
+	args      []string
+	outs      []string
+	tags      map[string]bool
+	nEv       int
+	lastStep  bool // the last Do called Step
 	lastPanic bool
 }
 
@@ -324,22 +324,31 @@ func history(r *lib.Rng, flavour int, n int) {
 				gap = aroundThreshold(r, elapsed(), 6*second)
 			default:
 				gap = genGap(r)
-				switch flavour {
-				case 4: // long tracking with the stiffening branch
-					if r.Intn(3) != 0 {
-						gap = r.Range(20, 200) * second
+				atCapture := false
+				if elapsed() <= 300*second && r.Intn(5) == 0 {
+					// around captureTime (300 s after tracking began), with a weight that uses the stored gains
+					gap = aroundThreshold(r, elapsed(), 300*second)
+					wclass = 2
+					atCapture = true
+				}
+				if !atCapture {
+					switch flavour {
+					case 4: // long tracking with the stiffening branch
+						if r.Intn(3) != 0 {
+							gap = r.Range(20, 200) * second
+						}
+						if r.Intn(5) != 0 {
+							wclass = 2
+						}
+						if r.Intn(2) == 0 {
+							off = r.Range(-200000, 200000)
+						}
+					case 7: // saturating offsets at whole-second gaps
+						if r.Intn(2) == 0 {
+							gap = r.Range(0, 5) * second
+						}
+						off = lib.Pick(r, int64(1), -1) * r.Range(second/50, 5*second)
 					}
-					if r.Intn(5) != 0 {
-						wclass = 2
-					}
-					if r.Intn(2) == 0 {
-						off = r.Range(-200000, 200000)
-					}
-				case 7: // saturating offsets at whole-second gaps
-					if r.Intn(2) == 0 {
-						gap = r.Range(0, 5) * second
-					}
-					off = lib.Pick(r, int64(1), -1) * r.Range(second/50, 5*second)
 				}
 			}
 			// rare: very large gaps, and readings that go backwards
